@@ -25,7 +25,7 @@ POOL = [
     "y ~ x", "y ~ f", "y ~ 0 + f:g + x", "y ~ f*g + poly(x, 2)", "yc ~ x", "yc[v] ~ f + x", "prop(s, n) ~ x + f", "prop(s, 9) ~ x",
     "y ~ 1", "x + f", "y ~ x + (1|g)", "y ~ (x|g)", "y ~ (f|g)", "y ~ (0 + f|g) + (1|h)", "y ~ (x|g:h) + (0 + f:x|h)",
     "y ~ (x|g) + (x|h)", "y ~ x + (bs(x, df=3)|g)", "y ~ f + (f|g) + (x|h)", "y ~ 0 + C(k) + (1|g/h)", "y ~ (1|h) + (f*x|g)",
-    "yc ~ 0 + x + (0 + x|g)", "(x|g)", "x + f + (x|g)", "y ~ 0 + (x|g)", "0 + (f|g)", "y ~ fn + x", "y ~ 0 + C(fn):f + (1|fn)", "y ~ x + (0 + fn|g)", "y ~ (0 + f|g + h) + (1|g)", "y ~ x + (f|g + h) - (1|h)", "y ~ (0 + f:x|g/h) + (1|g)", "y ~ 0 + bs(x, df=4)", "y ~ 0 + bs(x, df=4):f", "y ~ f + poly(x, 3) + (0 + bs(x, df=4)|g)", "y ~ one + x + f", "y ~ x + one + (1|g) + (0 + x|g)", "y ~ x + offset(s) + f", "y ~ offset(2.5) + (1|g)", "y ~ C(fl) + x", "y ~ x + (1|C(fl))", "ylong ~ x + flong", "ylong ~ 0 + x + (flong|g)",  # 'one' has a single level: a term without columns
+    "yc ~ 0 + x + (0 + x|g)", "(x|g)", "x + f + (x|g)", "y ~ 0 + (x|g)", "0 + (f|g)", "y ~ x + (1|fl)", "y ~ 0 + flc + x", "y ~ x + (0 + flc|g)", "y ~ fn + x", "y ~ 0 + C(fn):f + (1|fn)", "y ~ x + (0 + fn|g)", "y ~ (0 + f|g + h) + (1|g)", "y ~ x + (f|g + h) - (1|h)", "y ~ (0 + f:x|g/h) + (1|g)", "y ~ 0 + bs(x, df=4)", "y ~ 0 + bs(x, df=4):f", "y ~ f + poly(x, 3) + (0 + bs(x, df=4)|g)", "y ~ one + x + f", "y ~ x + one + (1|g) + (0 + x|g)", "y ~ x + offset(s) + f", "y ~ offset(2.5) + (1|g)", "y ~ C(fl) + x", "y ~ x + (1|C(fl))", "ylong ~ x + flong", "ylong ~ 0 + x + (flong|g)",  # 'one' has a single level: a term without columns
 ]
 FRAMES = ["sub", "rev", "newg", "newh", "newgh", "one", "long"]
 FRAMES_T = FRAMES + ["dup"]
@@ -43,6 +43,7 @@ def train():
         df["one"] = "only"
         df["fn"] = [["north", "north ", " north", "South"][i % 4] for i in range(n)]  # levels that differ only in surrounding blanks
         df["fl"] = [[1000001.0, 1000002.0, 0.1 + 0.2, 0.3][i % 4] for i in range(n)]  # distinct levels that agree to 6 significant digits
+        df["flc"] = pd.Categorical(df["fl"])  # the same float levels as a Categorical column (used as a plain variable)
         df["ylong"] = [f"a rather long response level number {i % 9}" for i in range(n)]  # printed level lists longer than one line
         df["flong"] = [f"factor level with a long name {(i * 5) % 12:02d}" for i in range(n)]
         _DF = df
@@ -64,6 +65,7 @@ def other_frame():
         df["one"] = "only"
         df["fn"] = [["north", "north ", " north", "South", "north  "][i % 5] for i in range(n)]
         df["fl"] = [[1000001.0, 1000002.0, 0.1 + 0.2, 0.3, 7.5][i % 5] for i in range(n)]
+        df["flc"] = pd.Categorical(df["fl"])
         df["ylong"] = [f"a rather long response level number {i % 11}" for i in range(n)]
         df["flong"] = [f"factor level with a long name {(i * 5) % 14:02d}" for i in range(n)]
         _OTHER = df
